@@ -1337,6 +1337,9 @@ func conv(fr *frame, t_dst, t_src types.Type, x value) value {
 			// destination type.
 			if up, ok := x.(unsafePtr); ok {
 				if pt, ok := ut_dst.(*types.Pointer); ok {
+					if types.Identical(pt.Elem(), up.t) {
+						return up.p // round trip *T -> unsafe.Pointer -> *T
+					}
 					if at, ok := pt.Elem().Underlying().(*types.Array); ok {
 						if b, ok := at.Elem().Underlying().(*types.Basic); ok && b.Kind() == types.Uint8 && at.Len() == stdSizes.Sizeof(up.t) {
 							return byteView{p: up.p, t: up.t}
